@@ -45,4 +45,4 @@ def all_harnesses():
 
 
 def harnesses(tier, seed):
-    return fold(select(all_harnesses(), tier, seed, 10, budget=4500), 3)
+    return fold(select(all_harnesses(), tier, seed, 10), 3)
